@@ -805,7 +805,7 @@ func (g *FG) ResolveUnder(env Env, seen map[*GNode]bool, e ast.Expr, at *GNode) 
 			continue
 		}
 		body := g.F.Body()
-		if !definedIn(g.Info, body, o) {
+		if !definedIn(g.Info, body, o) && !g.isParam(o) {
 			return e
 		}
 		env2 := g.withLocals(env)
@@ -867,6 +867,36 @@ func (g *FG) ResolveUnder(env Env, seen map[*GNode]bool, e ast.Expr, at *GNode) 
 		e = last[0].rhs
 	}
 	return e
+}
+
+// isParam: is o a parameter (or named result) of the function this graph belongs to? A re-assigned parameter resolves like a
+// local; where no assignment reaches, the identifier stands for the argument.
+func (g *FG) isParam(o types.Object) bool {
+	if g.F == nil {
+		return false
+	}
+	var ft *ast.FuncType
+	if g.F.Decl != nil {
+		ft = g.F.Decl.Type
+	} else if g.F.Lit != nil {
+		ft = g.F.Lit.Type
+	}
+	if ft == nil {
+		return false
+	}
+	for _, fl := range []*ast.FieldList{ft.Params, ft.Results} {
+		if fl == nil {
+			continue
+		}
+		for _, f := range fl.List {
+			for _, nm := range f.Names {
+				if g.Info.Defs[nm] == o {
+					return true
+				}
+			}
+		}
+	}
+	return false
 }
 
 // definedIn: is o a variable defined by an identifier inside body (a true local of it)? Decided on the definitions recorded by
